@@ -185,8 +185,34 @@ def delegated(binpath, seed, sh, n):
             l1, l2 = l2, l1
         plans.append((f1, f2, ki, kind, len(reqs)))
         reqs += [(top, ["ed0"], "new"), (inner, [f1], "new"), (inner, [f2], "new"), (l1, [ki], "new"), (l2, [ki], "new")]
+    # a multi-party step INSIDE a sub-layout, filed by a surplus functionary of an outer step that has enough agreeing plain
+    # links without him: dissent between the inner links makes the sub-layout fail, and with it the verification
+    plans2 = []
+    for i in range(max(4, n // 2)):
+        f1, f2, f3, ki, kj = rng.sample(["ed4", "ed5", "ed6", "edp2", "ec-b", "ed1", "ed2"], 5)
+        kind = rng.choice(["none", "digest", "extra"])
+        inner = scen.mk_layout(W, [ki, kj], [scen.mk_step("inner", 2, [W.kid(ki), W.kid(kj)], [], [["ALLOW", "*"]], [["ALLOW", "*"]])], [])
+        top = scen.mk_layout(W, [f1, f2, f3], [scen.mk_step("build", 2, [W.kid(f1), W.kid(f2), W.kid(f3)], [], [["ALLOW", "*"]], [["ALLOW", "*"]])], [])
+        plain = pipeline.leaf_link("build", 0)
+        l1 = pipeline.leaf_link("inner", 0)
+        l2 = copy.deepcopy(l1)
+        if kind == "digest":
+            l2["products"][sorted(l2["products"])[0]] = scen.digest(0xEE)
+        elif kind == "extra":
+            l2["materials"]["extra/file"] = scen.digest(0x77)
+        plans2.append((f1, f2, f3, ki, kj, kind, len(reqs)))
+        reqs += [(top, ["ed0"], "new"), (plain, [f1], "new"), (plain, [f2], "new"), (inner, [f3], "new"), (l1, [ki], "new"), (l2, [kj], "new")]
     wires = scen.sign_all(binpath, reqs, nproc=1)
     cases = []
+    for f1, f2, f3, ki, kj, kind, b in plans2:
+        d = f"build.{W.pfx(f3)}"
+        files = {f"build.{W.pfx(f1)}.link": scen.dumps(wires[b + 1]), f"build.{W.pfx(f2)}.link": scen.dumps(wires[b + 2]),
+                 f"{d}.link": scen.dumps(wires[b + 3]), f"{d}/inner.{W.pfx(ki)}.link": scen.dumps(wires[b + 4]),
+                 f"{d}/inner.{W.pfx(kj)}.link": scen.dumps(wires[b + 5])}
+        # the sub-layout's summary (inner materials/products) equals the plain links' artifacts when the inner links agree
+        cases.append(scen.verify_case(wires[b], [[W.kid("ed0"), W.pub("ed0")]], files, reps=4,
+                                      meta={"threshold": 2, "k": 3, "dissent": "inner_step_of_surplus_sublayout:" + kind, "where": "inner links", "rank": "-",
+                                            "dissent_in_artifacts": kind != "none"}))
     for f1, f2, ki, kind, b in plans:
         files = {f"build.{W.pfx(f1)}.link": scen.dumps(wires[b + 1]), f"build.{W.pfx(f2)}.link": scen.dumps(wires[b + 2]),
                  f"build.{W.pfx(f1)}/inner.{W.pfx(ki)}.link": scen.dumps(wires[b + 3]),
@@ -223,5 +249,5 @@ def main(ctx):
         required=["positive_control_accepted", "dissent:path", "dissent:digest", "dissent:alg", "dissent:extra",
                   "dissent:missing", "where:materials", "where:products", "rank:smallest", "rank:largest", "rank:middle",
                   "surplus_links", "threshold:2", "threshold:3", "threshold:4", "dissent:byproducts_only", "dissent:digest_truncated", "dissent:path_respelled",
-                  "dissent:delegated:none", "dissent:delegated:digest", "dissent:delegated:extra", "dissent:extra_without_digests", "dissent:digests_emptied", "dissenter_cosigned_another_link:dissent", "dissenter_cosigned_another_link:no_artifact_dissent"],
+                  "dissent:delegated:none", "dissent:delegated:digest", "dissent:inner_step_of_surplus_sublayout:digest", "dissent:inner_step_of_surplus_sublayout:none", "dissent:delegated:extra", "dissent:extra_without_digests", "dissent:digests_emptied", "dissenter_cosigned_another_link:dissent", "dissenter_cosigned_another_link:no_artifact_dissent"],
         min_evals=1000)
